@@ -94,7 +94,7 @@ def mask_padding(b, end_type, start=0, chain=False):
     return bytes(b)
 
 
-def masked(rebound, stream, ft, extra_names=("functionpointers",)):
+def masked(rebound, stream, ft, extra_names=("functionpointers",), relax_vc=False):
     """canonical form of a stream for comparing states: dict type -> payload with wall-clock fields dropped and the
     pointer members of particle / var_config structs zeroed (addresses are not state)."""
     drop = {ft[n][0] for n in ft if n.startswith("walltime")} | {ft[n][0] for n in extra_names}
@@ -114,6 +114,8 @@ def masked(rebound, stream, ft, extra_names=("functionpointers",)):
             for i in range(len(b) // 40):
                 b[i * 40:i * 40 + 8] = b"\0" * 8
                 b[i * 40 + 28:i * 40 + 32] = b"\0" * 4
+                if relax_vc and b[i * 40 + 8:i * 40 + 12] == b"\1\0\0\0":
+                    b[i * 40 + 20:i * 40 + 28] = b"\0" * 8     # index_1st_order_a/b of a FIRST-order record (never initialised by the library)
             p = bytes(b)
         d[t] = p
     return d
@@ -176,7 +178,10 @@ def apply_op(rebound, sim, op, fname):
         if nreal >= 2:
             sim.integrate(sim.t + op[1], exact_finish_time=op[2])
     elif k == "add":
-        sim.add(m=op[1], a=op[2], e=0.01, r=1e-4)
+        if sim.N == 0:
+            sim.add(m=max(op[1], 0.5))            # a new primary at the origin
+        else:
+            sim.add(m=op[1], a=op[2], e=0.01, r=1e-4)
     elif k == "add_test":
         sim.add(m=0.0, x=op[1], y=0.3, vz=0.1)
     elif k == "remove_idx":
@@ -239,6 +244,28 @@ def apply_op(rebound, sim, op, fname):
         if sim.N > 0:
             p = sim.particles[min(op[1], sim.N - 1)]
             p.z = -p.z if p.z == 0.0 else p.z
+    elif k == "set_t":
+        sim.t = op[1]
+    elif k == "set_vc":
+        # change exactly one member of one reb_variational_configuration record
+        if sim.N_var_config > op[1]:
+            setattr(sim.var_config[op[1]], {"lrescale": "_lrescale"}.get(op[2], op[2]), op[3])
+    elif k == "set_p":
+        # change exactly one non-pointer member of one particle (doubles: by one ulp unless a value is given)
+        if sim.N > 0:
+            import math
+            p = sim.particles[min(op[1], sim.N - 1)]
+            if op[2] == "hash":
+                p.hash = ctypes.c_uint32(op[3])
+            else:
+                cur = getattr(p, op[2])
+                setattr(p, op[2], op[3] if len(op) > 3 and op[3] is not None else math.nextafter(cur, math.inf))
+    elif k == "big_var":
+        # make the variational coordinates huge so that the next step rescales them (lrescale changes)
+        if sim.N_var_config > 0 and sim.var_config[0]._lrescale >= 0:
+            vc = sim.var_config[0]
+            for i in range(vc.index, sim.N):
+                sim.particles[i].x = 3e120
     elif k == "snap":
         sim.save_to_file(fname)
         return True
